@@ -168,6 +168,9 @@ def build_site(w, site, k):
         if site["ents"]:
             w.write(".Links", links_file(site["ents"], k))
         w.write("echo.pyg", ECHO_PYG, mode=0o755)
+        import gzip                                  # encoded files with a known inner type
+        w.write("zy.txt.gz", gzip.compress(b"DOC packed text\n", mtime=0))
+        w.write("zy.html.gz", gzip.compress(b"<html><head><title>packed</title></head><body>DOC</body></html>\n", mtime=0))
         rows = []
         for sel in site.get("ssels", []):          # further search items: PYG files with reserved characters in
             real = sel.split("?")[0]                 # their names, Virtual "?args" variants through the link file
@@ -188,7 +191,7 @@ def build_site(w, site, k):
 _VIEWS_MIME = re.compile(rb"\+VIEWS:\r\n ([^ :\r\n]+)")
 
 
-def observe(w, p, sel, slash, k, want_entries):
+def observe(w, p, sel, slash, k, want_entries, hdr=False):
     from harness import c05_lib as L
     if sel == "/" and not slash:
         t = L.root_target(p, k)
@@ -196,6 +199,7 @@ def observe(w, p, sel, slash, k, want_entries):
     else:
         t = target_of(p, sel + ("/" if slash else ""), k)
         rq = L.follow(p, t, L.root_ref(p, k), "", k)
+    rq = L.with_headers(rq, hdr)
     r = L.send(w, rq, k)
     c = L.classify(p, r, k)
     mime = c["mime"]
@@ -204,7 +208,7 @@ def observe(w, p, sel, slash, k, want_entries):
         r2 = w.request(L.conc(rq["line"].replace("\t+\r\n", "\t!\r\n"), k.hi_byte), tls=rq["tls"])
         m = _VIEWS_MIME.search(r2.out)
         mime = m.group(1).decode("latin-1") if m else ""
-    ev = {"ev": "view" if want_entries else "object", "p": p, "sel": sel, "slash": slash, "req": rq,
+    ev = {"ev": "view" if want_entries else "object", "p": p, "sel": sel, "slash": slash, "hdr": hdr, "req": rq,
           "cls": c["cls"], "obj": c["obj"], "mime": L.absx(mime)}
     if want_entries:
         ents = c["entries"]
@@ -324,19 +328,21 @@ def _run_site(site):
                 objs.append(t["sel"])
         frontier = nxt
         depth += 1
-    dirs, objs = dirs[:6], objs[:8]
+    dirs, objs = dirs[:6], objs[:10]
 
     def sweep(p):
         evs, con = [], []
-        for d in dirs:
-            for slash in ((False,) if d == "/" else (False, True)):
-                e, c = observe(w, p, d, slash, k, True)
+        # the HTTP-family views: bare request line, and with the header block a real browser sends
+        for hdr in ((False, True) if p in ("H", "HS", "W") else (False,)):
+            for d in dirs:
+                for slash in ((False,) if d == "/" else (False, True)):
+                    e, c = observe(w, p, d, slash, k, True, hdr)
+                    evs.append(e)
+                    con.append(c)
+            for o in objs:
+                e, c = observe(w, p, o, False, k, False, hdr)
                 evs.append(e)
                 con.append(c)
-        for o in objs:
-            e, c = observe(w, p, o, False, k, False)
-            evs.append(e)
-            con.append(c)
         return evs, con
 
     # reference observations: plain Gopher (listings, object kinds) and Gopher+ (whose "!" form carries MIME types)
